@@ -160,9 +160,24 @@ def _returns_in_loops_or_try(fn) -> bool:
     return rec(fn, False)
 
 
+def _has_return(st) -> bool:
+    return any(isinstance(n, ast.Return) for n in _walk_no_defs(st))
+
+
+def _walk_no_defs(st):
+    todo = [st]
+    while todo:
+        n = todo.pop()
+        yield n
+        for c in ast.iter_child_nodes(n):
+            if not isinstance(c, (ast.FunctionDef, ast.AsyncFunctionDef, ast.Lambda, ast.ClassDef)):
+                todo.append(c)
+
+
 def _lower(stmts: list, target):
-    """eliminate tail-position returns: (statements, falls_through).  `target` is an assignment target
-    for returned values (None: values are discarded)."""
+    """eliminate returns: (statements, may fall through).  `target` is an assignment target for returned
+    values (None: values are discarded).  Whatever follows an `if` that contains a return is moved into its
+    branches (copied when both can fall through), so that a path that has returned executes nothing more."""
     out = []
     for i, st in enumerate(stmts):
         if isinstance(st, ast.Return):
@@ -173,27 +188,14 @@ def _lower(stmts: list, target):
             elif target is not None and st.value is None:
                 out.append(ast.copy_location(ast.Assign(targets=[copy.deepcopy(target)], value=ast.Constant(value=None)), st))
             return out, False
-        if isinstance(st, ast.If):
-            b, bf = _lower(st.body, target)
-            o, of = _lower(st.orelse, target)
+        if isinstance(st, ast.If) and _has_return(st):
             rest = stmts[i + 1:]
+            b, bf = _lower(list(st.body) + rest, target)
+            o, of = _lower(list(st.orelse) + copy.deepcopy(rest), target)
             new = copy.copy(st)
-            if bf and of:
-                new.body, new.orelse = b or [ast.Pass()], o
-                out.append(new)
-                continue
-            r, rf = _lower(rest, target)
-            if not bf and of:
-                new.body, new.orelse = b or [ast.Pass()], (o + r)
-                out.append(new)
-                return out, rf
-            if bf and not of:
-                new.body, new.orelse = (b + r) or [ast.Pass()], o
-                out.append(new)
-                return out, rf
             new.body, new.orelse = b or [ast.Pass()], o
             out.append(new)
-            return out, False
+            return out, (bf or of)
         out.append(st)
     return out, True
 
@@ -544,6 +546,8 @@ class Canon:
                                     if not (new and isinstance(new[-1], ast.Return)) and _lower(copy.deepcopy(new), None)[1]:
                                         new = new + [ast.Return(value=ast.Constant(value=None))]
                                 else:
+                                    if mode == "assign" and not (body and isinstance(body[-1], ast.Return)):
+                                        body = body + [ast.Return(value=None)]  # falling off the end returns None
                                     new, _falls = _lower(body, target if mode == "assign" else None)
                             except Unsupported:
                                 new = None
